@@ -438,7 +438,8 @@ def install_os(E):
             return NONE
         return VStub('os.' + name, fn)
     others = {n: _other(n) for n in ('unlink', 'remove', 'rename', 'replace', 'write', 'read', 'fsync',
-                                     'getpid', 'mkdir', 'link', 'symlink', 'ftruncate', 'fdopen', 'dup')}
+                                     'getpid', 'mkdir', 'link', 'symlink', 'ftruncate', 'fdopen', 'dup', 'dup2',
+                                     'set_inheritable', 'get_inheritable', 'fork', 'kill', 'chmod', 'utime', 'stat')}
     path_ns = VNamespace('os.path', {n: _other('path.' + n) for n in ('exists', 'isfile', 'getmtime')})
     ns = VNamespace('os', dict(open=_open, close=_close, path=path_ns, **others, **consts))
     E.builtins[('import', 'os')] = ns
@@ -485,7 +486,18 @@ def install_os(E):
             E.w['flock_owner'] = cur
         return NONE
 
-    E.builtins[('import', 'fcntl')] = VNamespace('fcntl', dict(flock=_flock, **{k: VInt(v) for k, v in LOCK.items()}))
+    def _fc_other(name):
+        def fn(E, args, kw):
+            # not part of the lock protocol (descriptor duplication / flag changes / byte-range locks):
+            # recorded so that the frame condition names it
+            E.effect('fcntl.' + name, *args)
+            return VInt(E.fresh('fcntl_result', z3.IntSort()))
+        return VStub('fcntl.' + name, fn)
+    fconst = {n: VInt(getattr(_real_fcntl, n)) for n in ('F_DUPFD', 'F_DUPFD_CLOEXEC', 'F_GETFD', 'F_SETFD', 'FD_CLOEXEC',
+                                                         'F_GETFL', 'F_SETFL') if hasattr(_real_fcntl, n)}
+    E.builtins[('import', 'fcntl')] = VNamespace('fcntl', dict(
+        flock=_flock, fcntl=_fc_other('fcntl'), lockf=_fc_other('lockf'), ioctl=_fc_other('ioctl'),
+        **fconst, **{k: VInt(v) for k, v in LOCK.items()}))
     E.builtins['__fcntl_consts__'] = LOCK
 
     @stub('time.time')
